@@ -868,11 +868,18 @@ func (s *Service) TokenReset(subject string, tokenID ...string) {
 }
 
 func (s *Service) setDefaultOwnership() {
+	// The service name and everything below it, or everything if the service
+	// has no name.
+	all := []string{">"}
+	if s.Mux.path != "" {
+		all = []string{s.Mux.path, mergePattern(s.Mux.path, ">")}
+	}
+
 	if s.resetResources == nil {
 		if s.Contains(func(h Handler) bool {
 			return h.Get != nil || len(h.Call) > 0 || len(h.Auth) > 0 || h.New != nil
 		}) {
-			s.resetResources = []string{s.Mux.path, mergePattern(s.Mux.path, ">")}
+			s.resetResources = all
 		} else {
 			s.resetResources = []string{}
 		}
@@ -882,7 +889,7 @@ func (s *Service) setDefaultOwnership() {
 		if s.Contains(func(h Handler) bool {
 			return h.Access != nil
 		}) {
-			s.resetAccess = []string{s.Mux.path, mergePattern(s.Mux.path, ">")}
+			s.resetAccess = all
 		} else {
 			s.resetAccess = []string{}
 		}
